@@ -111,9 +111,16 @@ var c09Mem = []string{
 	`(x => self(x + 1))(%d)`,
 	`len(str("q" * %d))`,
 	`a = (0:200) * %d; len(a + a)`,
+	`mrec = macro(x) { func mf(n) { mf(n + 1) }; mf(%d) }` + "\n" + `mrec(1)`,
 }
 
-var c09Operands = []int64{0, 1, 7, 40, 62, 63, 64, 1000, 70000, 1 << 20, 1 << 24, 1<<31 - 1, 1 << 31, 1<<31 + 1, 1 << 32, 1 << 40, 1 << 62, 1<<62 + 1, 1<<63 - 1, 3074457345618258603, 6148914691236517206}
+// bytes needed per unit of the reported length, for templates whose result is the size of what was built
+var c09Unit = map[string]int64{
+	`len("abcdefgh" * `: 1, `len([1, 2, 3] * `: 16, `len(0:`: 16, `len((0:1000) * `: 16, `len(join([1, 2, 3] * `: 1,
+	`len(split("a," * `: 16, `len(runes("ab" * `: 16, `len(str("q" * `: 1,
+}
+
+var c09Operands = []int64{3_000_000, 6_000_000, 20_000_000, 0, 1, 7, 40, 62, 63, 64, 1000, 70000, 1 << 20, 1 << 24, 1<<31 - 1, 1 << 31, 1<<31 + 1, 1 << 32, 1 << 40, 1 << 62, 1<<62 + 1, 1<<63 - 1, 3074457345618258603, 6148914691236517206}
 
 func (c09) Generate(r *core.Rng, run int, tier string) *core.History {
 	h := &core.History{Cfg: map[string]int64{}, Flags: map[string]bool{}, Strs: map[string]string{}}
@@ -433,6 +440,11 @@ func (c09) execMemory(h *core.History) *core.Outcome {
 				class = "error"
 			default:
 				class = "value"
+				if unit, ok := c09Unit[key]; ok && h.F("simmem") {
+					if n, err := strconv.ParseInt(strings.TrimSpace(rep.Res), 10, 64); err == nil && n*unit > c09MemLimit/2 {
+						fail("result-within-memory-budget", fmt.Sprintf("%q: with a free-memory budget of %d bytes the operator returned a result of %d units x %d bytes = %d bytes instead of refusing it", prog, c09MemLimit/2, n, unit, n*unit))
+					}
+				}
 			}
 		}
 	}
